@@ -58,7 +58,7 @@ func init() {
 		Assumptions: []string{"values are valid UTF-8 without NUL (argv cannot carry NUL; $PARAMS is JSON)", "array elements are single-line"},
 		Run: func(x *Ctx) {
 			pool := x.NewPool(false)
-			n := x.Pick(5000, 200000)
+			n := x.Pick(5000, 100000)
 			var cases []*proto.Case
 			for i := 0; i < n; i++ {
 				r := x.Rng("val", i)
@@ -82,9 +82,9 @@ func init() {
 				sep := fmt.Sprintf("\x1eSEP-%d-%d\x1e", x.Seed, i)
 				aj, _ := json.Marshal(arr)
 				// the external argv echo costs a process spawn through murex's exec
-				// (~100 ms under load): used for every 8th case in the quick tier
+				// (~100 ms under load): used for every 8th case in the quick tier and every 4th in the thorough tier
 				ext := "argvecho"
-				if x.Quick() && i%8 != 0 {
+				if (x.Quick() && i%8 != 0) || (!x.Quick() && i%4 != 0) {
 					ext = "c08pf"
 				}
 				block := "function c08pf { out $PARAMS }\n" +
